@@ -1175,8 +1175,12 @@ htp_status_t htp_connp_RES_FINALIZE(htp_connp_t *connp) {
 
     //unread last end of line so that RES_LINE works
     if (connp->out_current_read_offset < (int64_t)bytes_left) {
+        // The line started in an earlier chunk: that part stays buffered, what is
+        // going to be read again from the current chunk must not.
+        if (connp->out_buf != NULL) connp->out_buf_size = bytes_left - connp->out_current_read_offset;
         connp->out_current_read_offset=0;
     } else {
+        if (connp->out_buf != NULL) connp->out_buf_size = 0;
         connp->out_current_read_offset-=bytes_left;
     }
     if (connp->out_current_read_offset < connp->out_current_consume_offset) {
